@@ -100,8 +100,25 @@ theorem receipt_facts {s : Sys} {a : Acct} {rest : List Stanza} {id : Nat} {peer
 theorem onReceipt_retry_TV (hw : WFConfig accts groups) {s : Sys} {a : Acct} {rest : List Stanza} {id : Nat} {peer : Dest}
     {part : Option Acct} {cnt : Nat}
     (hA : AInv accts groups (abs s)) (hT : TV ex accts groups s.submitted (view s))
+    (hlen : s.submitted.length ≤ 100)
     (hq : queueOf s.outbound a = .receipt id peer part (.retry cnt) :: rest) :
     TV ex accts groups s.submitted (view (onReceipt { s with outbound := insert s.outbound a rest } a id peer part (.retry cnt))) := by
+  have nolost : ¬ 100 < (view s).submitted.length := by
+    show ¬ 100 < s.submitted.length
+    omega
+  have hkeptm : ∀ n', (a, n') ∈ s.submitted → ∀ r, r ∈ intendedG groups a n' →
+      inTransitV (view s) a n'.id r = 0 ∨ n' ∈ (getClient s a).sentQueue := by
+    intro n' hn' r hr
+    rcases hT.kept a n' hn' r hr with h1 | h1 | h1
+    · exact Or.inl h1
+    · exact Or.inr h1
+    · exact absurd h1 nolost
+  have hretqm : ∀ e ∈ (getClient s a).iqReg, ∀ n' w c, e.2 = Cont.keysForRetry n' w c → isGroupDest n'.dest = true →
+      n' ∈ (getClient s a).sentQueue := by
+    intro e he n' w c hc hg
+    rcases hT.retq a e he n' w c hc hg with h1 | h1
+    · exact h1
+    · exact absurd h1 nolost
   obtain ⟨ha, n, hn1, hn2, hrs, hwint, _, hcnt⟩ := receipt_facts hA hT hq
   have hcnt1 : 1 ≤ cnt := hcnt cnt rfl
   have hacc : a ∈ (view { s with outbound := insert s.outbound a rest }).accounts := by
@@ -121,7 +138,7 @@ theorem onReceipt_retry_TV (hw : WFConfig accts groups) {s : Sys} {a : Acct} {re
     unfold inTransitV at h1 ⊢
     omega
   have hinq : n ∈ (getClient s a).sentQueue := by
-    rcases hT.kept a n hn1 _ hwint with h1 | h1
+    rcases hkeptm n hn1 _ hwint with h1 | h1
     · omega
     · exact h1
   have hgc : getClient { s with outbound := insert s.outbound a rest } a = getClient s a := rfl
@@ -221,9 +238,9 @@ theorem onReceipt_retry_TV (hw : WFConfig accts groups) {s : Sys} {a : Acct} {re
             intro h
             exact hh ⟨h.1.symm, (recShape_ident hrs r).mp h.2⟩
           rw [hz]
-          rcases hT.kept a n' hn' r hr with h1 | h1
+          rcases hkeptm n' hn' r hr with h1 | h1
           · exact Or.inl h1
-          · right
+          · right; left
             rw [hsq]
             split
             · exact h1
@@ -265,7 +282,8 @@ theorem onReceipt_retry_TV (hw : WFConfig accts groups) {s : Sys} {a : Acct} {re
       retq := by
         intro e he n' w c hc hg
         rw [e7] at he
-        have h1 := hT.retq a e he n' w c hc hg
+        have h1 := hretqm e he n' w c hc hg
+        left
         rw [hsq]
         split
         · exact h1
@@ -289,7 +307,7 @@ theorem onReceipt_retry_TV (hw : WFConfig accts groups) {s : Sys} {a : Acct} {re
         intro n' w c e hg
         cases e
         rw [hsq, if_pos (by rw [hgrp]; exact hg)]
-        exact hinq)
+        exact Or.inl hinq)
     refine finish_sender hw.1 hT hss ?_
     have hv1 : view (setClient { s with outbound := insert s.outbound a rest } a c1) = ((view s).popOut a rest).cstep a c1 [] (view s).nextCtr := by
       rw [view_setClient _ _ _ hacc, view_setOutbound]; rfl
@@ -387,8 +405,10 @@ theorem bubble_step {s : Sys} {a : Acct} {rest : List Stanza} {id : Nat} {peer :
       simp only [sumMap_cons, sumMap_nil', Nat.add_zero, upTok_ack, retryDownTok]
       rcases hT.kept a n' hn' r hr with h1 | h1
       · exact Or.inl h1
-      · rcases hkeep n' hn' h1 with h2 | ⟨h2, h3⟩
-        · exact Or.inr h2
+      · rcases h1 with h1 | h1
+        case inr => exact Or.inr (Or.inr h1)
+        rcases hkeep n' hn' h1 with h2 | ⟨h2, h3⟩
+        · exact Or.inr (Or.inl h2)
         · -- a 1:1 message whose receipt arrived was shown: nothing is on its way any more
           subst h2
           left
@@ -436,13 +456,14 @@ theorem bubble_step {s : Sys} {a : Acct} {rest : List Stanza} {id : Nat} {peer :
       intro e he n' w c hc hg
       have he : e ∈ c1.iqReg := he
       rw [e7] at he
-      have h1 := hT.retq a e he n' w c hc hg
+      rcases hT.retq a e he n' w c hc hg with h1 | h1
+      case inr => exact Or.inr h1
       have hn'sub : (a, n') ∈ s.submitted := by
         have := (hA.client a).conts e.1 e.2 he
         rw [hc] at this
         exact this.1
       rcases hkeep n' hn'sub h1 with h2 | ⟨h2, h3⟩
-      · exact h2
+      · exact Or.inl h2
       · subst h2; rw [h3] at hg; cases hg
     unop_out := by
       intro r _ m
